@@ -233,7 +233,12 @@ func c11SpentScript(r *prng.R) (script []byte, isNil bool) {
 		s = append(s, 0x00)
 		s = append(s, gen.Push(r.Bytes(1+r.Intn(30)))...)
 		s = append(s, 0x68)
-		switch r.Intn(4) {
+		switch r.Intn(5) {
+		case 4:
+			// ... followed by OP_RETURN and metadata that ends in a push cut short: the script does
+			// not tokenize, so it is no inscription (and nothing else the estimate supports)
+			s = append(s, 0x6a, 0x01, 0x31)
+			s = append(s, prng.Pick(r, [][]byte{{0x4c}, {0x05, 0x01}, {0x4d, 0x10}, {0x4e, 0x01, 0x00, 0x00, 0x00}, {0x02, 0x41}})...)
 		case 0:
 			s = append(s, 0x51)
 		case 1:
